@@ -5,7 +5,7 @@
 //! `p_c13 oracle`
 //!     prints  `O kind full other_err sys len flags nonblock code errno`   one row per measurement
 //!     kind: 0 pipe 1 stream 2 dgram 3 /dev/null 4 eventfd 5 regular file 6 invalid
-//!     sys: 0 write 1 send;  code: 0 ok 1 EAGAIN 2 blocks (no return within 300 ms) 3 other error
+//!     sys: 0 write 1 send 2 getsockopt(level = len, option = flags);  code: 0 ok 1 EAGAIN 2 blocks (no return within 300 ms) 3 other error
 //! `p_c13 run`   reads one history per line from stdin:
 //!     `<hid> <nchan> {kind blocking prefill_mode prefill_n bufsize}*nchan  ops...`
 //!       prefill_mode: 0 none | 1 n one-byte units | 2 full (one-byte units) | 3 n empty datagrams
@@ -209,13 +209,26 @@ fn measure(kind: i64, full: bool, oe: i32, sys: i64, len: usize, flags: i32, non
             if kind != K_INVALID {
                 set_nonblock(fd, nonblock);
             }
-            let ret = if sys == 0 {
-                libc::write(fd, b"X".as_ptr() as *const libc::c_void, len)
+            let (code, e) = if sys == 2 {
+                // getsockopt(fd, level = len, option = flags): the probe of register_raw
+                let mut val: libc::c_int = 0;
+                let mut sl = std::mem::size_of::<libc::c_int>() as libc::socklen_t;
+                let r = libc::getsockopt(fd, len as libc::c_int, flags, &mut val as *mut libc::c_int as *mut libc::c_void, &mut sl);
+                let e = errno();
+                if r == 0 {
+                    (0, 0)
+                } else {
+                    (3, e)
+                }
             } else {
-                libc::send(fd, b"X".as_ptr() as *const libc::c_void, len, flags)
+                let ret = if sys == 0 {
+                    libc::write(fd, b"X".as_ptr() as *const libc::c_void, len)
+                } else {
+                    libc::send(fd, b"X".as_ptr() as *const libc::c_void, len, flags)
+                };
+                let e = errno();
+                classify(ret, len, e)
             };
-            let e = errno();
-            let (code, e) = classify(ret, len, e);
             println!("{} {} {}", head, code, e);
             std::io::stdout().flush().ok();
             0
@@ -240,7 +253,8 @@ fn oracle() -> i32 {
         let oe = if kind == K_EVENTFD { 1 } else { 0 };
         for &full in fills {
             let rows: Vec<(i64, usize, i32, bool)> = vec![
-                (1, 0, dw, false), // the probe of register_raw
+                (2, libc::SOL_SOCKET as usize, libc::SO_TYPE, false), // the probe of register_raw
+                (1, 0, dw, false), // the probe register_raw used to make (zero-length send)
                 (1, 1, dw, false), // wake, method Send
                 (1, 1, dw, true),
                 (0, 1, 0, true),   // wake, method Write after set_flags
